@@ -149,6 +149,13 @@ class TrioEventLoop(EventLoop):
             True if the scope was cancelled, False if it was cancelled already
             before invoking this function
         """
+        # a task that was never started (registered while run() is not executing) is simply forgotten:
+        # its scope has not been entered and can only be inspected from within trio.run()
+        for i, (_task, pending_scope, _args) in enumerate(self._pending_tasks):
+            if pending_scope is scope:
+                del self._pending_tasks[i]
+                return True
+
         existed = not scope.cancel_called
         scope.cancel()
         return existed
